@@ -79,13 +79,13 @@ func VerifC13Traversal() {
 	before := vrtClone(p).(*types.Project)
 	// NOREVERSE=1: this entry only walks forward (the reverse direction is left to the other entries)
 	reverse := vrtParam("NOREVERSE", 0) == 0 && vrtChoice("reverse", 2) == 1
-	limit := vrtChoice("limit", vrtParam("LIMITS", 3)) // 0 unbounded, 1, 2
+	limit := []int{0, 1, 2, -1}[vrtChoice("limit", vrtParam("LIMITS", 3))] // 0 unbounded, 1, 2; -1 is another way to say unbounded
 	failAt := []string{"", "a", "b", "c"}[vrtChoice("failAt", vrtParam("FAILS", 4))]
 	var opts []func(*Options)
 	if reverse {
 		opts = append(opts, InReverseOrder)
 	}
-	if limit > 0 {
+	if limit != 0 {
 		opts = append(opts, WithMaxConcurrency(limit))
 	}
 	vrtSetPreemptions(vrtParam("PREEMPT", 1))
